@@ -206,13 +206,12 @@ func c14Accesses(r *Run, rep *core.Report, reach map[*ssa.Function]bool) {
 						cons := fmt.Sprintf("%s stores pointer into %s", fn(f), a.Key())
 						okv := false
 						why := ""
-						switch v := val.(type) {
-						case *ssa.Const:
-							okv = v.Value == nil
-						case *ssa.Alloc:
-							okv = true
-						default:
-							why = "value " + val.Name() + " is not the address of an allocation made by this call"
+						if c, isC := val.(*ssa.Const); isC {
+							okv = c.Value == nil
+						} else if fi := unpublishedAt(r, f, val, in, 0); fi.OK {
+							okv = true // an allocation of this call (possibly built by a helper) that nothing has published yet
+						} else {
+							why = "value " + val.Name() + " is not the address of an allocation made by this call (" + fi.Why + ")"
 						}
 						emit(okv, "C14.A4", cons, pos, "nil or the address of a per-call allocation (live value pointers stay unique)",
 							"pointer published into a slot is not a fresh per-call allocation: "+why+"; the lock-free reader's snapshot relies on unique live pointers / immutable entries")
